@@ -20,8 +20,9 @@
 (* calls, so the heap order is the order of each record's latest Lookup:    *)
 (* `seq` (a logical clock) orders records, `t` (model time) ages them.      *)
 (*                                                                         *)
-(* ExpireCmp: ">=" as in the code;  ">" is the deliberately broken instance *)
-(* (keeps a record that is exactly `timeout` old).                          *)
+(* FixOnRefresh: TRUE as in the code; FALSE is the deliberately broken       *)
+(* instance (a refreshed record is not re-heapified: the heap order breaks  *)
+(* and a sweep stops at a fresh root although older records lie below it).  *)
 (***************************************************************************)
 EXTENDS Naturals, FiniteSets, Sequences, TLC
 
@@ -29,7 +30,7 @@ CONSTANTS Addrs,       \* set of strings
           T,           \* timeout
           MaxTime, TickSteps,
           MaxClk,      \* state constraint: number of Lookups
-          ExpireCmp    \* ">=" | ">"
+          FixOnRefresh \* TRUE | FALSE
 
 VARIABLES heap,      \* Seq([addr, t, seq, ch])  -- inner.byAge
           now, clk, nch,
@@ -69,7 +70,8 @@ Lookup(a) ==
   /\ clk' = clk + 1
   /\ IF Idx(heap, a) # {}
        THEN LET i == CHOOSE x \in Idx(heap, a) : TRUE
-                h2 == Fix([heap EXCEPT ![i].t = now, ![i].seq = clk + 1], i) IN
+                h1 == [heap EXCEPT ![i].t = now, ![i].seq = clk + 1]
+                h2 == IF FixOnRefresh THEN Fix(h1, i) ELSE h1 IN
             /\ heap' = h2 /\ nch' = nch
             /\ obs' = [a |-> "Lookup", addr |-> a, ch |-> heap[i].ch, isnew |-> FALSE, st |-> Proj(h2, now, closedCh)]
        ELSE LET h2 == Push(heap, [addr |-> a, t |-> now, seq |-> clk + 1, ch |-> nch + 1]) IN
@@ -77,7 +79,7 @@ Lookup(a) ==
             /\ obs' = [a |-> "Lookup", addr |-> a, ch |-> nch + 1, isnew |-> TRUE, st |-> Proj(h2, now, closedCh)]
   /\ UNCHANGED <<now, closedCh, swept>>
 
-Old(r) == IF ExpireCmp = ">=" THEN now - r.t >= T ELSE now - r.t > T
+Old(r) == now - r.t >= T
 RECURSIVE Sweep(_)
 Sweep(h) == IF Len(h) > 0 /\ Old(h[1]) THEN Sweep(PopRoot(h)) ELSE h
 
